@@ -15,6 +15,7 @@ CONSTANTS
   MaxFail = 0
   AllowSkip = TRUE
   AllowStop = TRUE
+  AllowBail = TRUE
 INVARIANTS TypeOK Asserts Ownership OnceInOrder Deterministic ErrorsAccountedR WaitSane
 PROPERTY Termination
 CHECK_DEADLOCK TRUE
